@@ -875,11 +875,11 @@ inline ConnectResult Transport::connectSync(const std::string &host, std::uint16
                            "Use connect() (async) instead, or post to a worker thread.");
   }
 
-  // For UDP, connect is immediate — no handshake
-  if (_impl->config.protocol == Protocol::UDP)
-  {
-    return _impl->engine->connect(host, port, tls);
-  }
+  // UDP takes the same path as TCP: UdpEngine::connect() only enqueues, the I/O
+  // thread resolves the host and reports the outcome through onConnect / onClose.
+  // Returning engine->connect() directly handed out ok(sid) for a host that does
+  // not resolve (the Resolve error then reached the GLOBAL close callback) and let
+  // the global connect callback fire for a connectSync-created session.
 
   timeout = detail::clampSyncTimeout(timeout); // milliseconds::max() must not wrap wait_for's deadline
 
